@@ -490,7 +490,7 @@ func (env *SpecEnv) call(x *SCall) Val {
 			return spec1(v.L[1])
 		case "fresh":
 			v := env.eval(x.Args[0])
-			return spec1(Gt(refOf(v), env.old.alloc))
+			return spec1(And(Gt(refOf(v), env.old.alloc), Le(refOf(v), env.st.alloc)))
 		case "allocated":
 			v := env.eval(x.Args[0])
 			return spec1(Le(refOf(v), env.st.alloc))
@@ -693,7 +693,8 @@ func (env *SpecEnv) assignGhost(lhs, rhs SExpr) {
 		base := env.eval(x.X)
 		v := env.eval(rhs).one()
 		h := env.ghostHeap(gf)
-		env.st.set(h, ex.vc.define(h.Name, Store(env.st.get(h), refOf(base), v)))
+		// assignments through nil are no-ops (there is no object)
+		env.st.set(h, ex.vc.define(h.Name, Ite(Eq(refOf(base), Int(0)), env.st.get(h), Store(env.st.get(h), refOf(base), v))))
 		return
 	case *SIndex:
 		if f, ok := x.X.(*SField); ok {
